@@ -21,38 +21,73 @@ def pairwiseB {α : Type} (r : α → α → Bool) : List α → Bool
   | [] => true
   | x :: xs => xs.all (r x) && pairwiseB r xs
 
+/-- no second instance: `a` and `b` (same schema node) may both be there -/
+def distinctInst (S : Schema) (a b : DNode) : Bool :=
+  if S.isDupInst a.sid then true
+  else if S.isKind a.sid .list || S.isKind a.sid .leaflist then !instMatch S a b && !instMatch S b a
+  else false
+
 /-- `a` may stand (anywhere) before `b` among siblings -/
 def okPair (S : Schema) (a b : DNode) : Bool :=
-  if a.sid == b.sid then
-    if S.isDupInst a.sid then true
-    else if S.isKind a.sid .list || S.isKind a.sid .leaflist then
-      !instMatch S a b && !instMatch S b a && (!S.isSorted a.sid || cmpInst S b a != .lt)
-    else false
+  if a.sid == b.sid then distinctInst S a b && (!S.isSorted a.sid || cmpInst S b a != .lt)
   else a.sid < b.sid
+
+/-- number of leading key children of an instance of schema node `sid` -/
+def listKeys (S : Schema) (sid : Nat) : Nat := if S.isKind sid .list then S.nkeys sid else 0
 
 /-- the leading keys of an instance of list `sid`: term nodes with the schema ids `sid+1 … sid+nkeys` -/
 def keysOk (S : Schema) (sid : Nat) : Nat → List DNode → Bool
   | 0, _ => true
   | _, [] => false
-  | n + 1, k :: ks => k.isTerm && k.sid == sid + 1 + (S.nkeys sid - (n + 1)) && S.isKey k.sid && keysOk S sid n ks
+  | n + 1, k :: ks => k.isTerm && k.sid == sid + 1 + (listKeys S sid - (n + 1)) && S.isKey k.sid && keysOk S sid n ks
 
 mutual
-def wfNode (S : Schema) (parent : Option Nat) : DNode → Bool
+/-- shape: node kinds, data parents, a list instance starts with exactly its keys, every other child comes later in the
+schema and is no key -/
+def shapeNode (S : Schema) (parent : Option Nat) : DNode → Bool
   | .term s _ _ _ => S.isTerm s && S.dataParent s == parent
-  | .inner s f _ ks =>
+  | .inner s _ _ ks =>
     S.isInner s && S.dataParent s == parent &&
-    (if S.isKind s .list then keysOk S s (S.nkeys s) ks && (ks.drop (S.nkeys s)).all (fun c => !S.isKey c.sid)
-     else ks.all (fun c => !S.isKey c.sid)) &&
-    (!f.dflt || ks.all (·.flags.dflt)) &&
-    pairwiseB (okPair S) (ks.drop (if S.isKind s .list then S.nkeys s else 0)) &&
-    wfAll S (some s) ks
-def wfAll (S : Schema) (parent : Option Nat) : List DNode → Bool
+    keysOk S s (listKeys S s) ks &&
+    (ks.drop (listKeys S s)).all (fun c => !S.isKey c.sid && s + listKeys S s < c.sid) &&
+    shapeAll S (some s) ks
+def shapeAll (S : Schema) (parent : Option Nat) : List DNode → Bool
   | [] => true
-  | n :: ns => wfNode S parent n && wfAll S parent ns
+  | n :: ns => shapeNode S parent n && shapeAll S parent ns
+end
+
+mutual
+/-- canonical order and unique instances, at every level -/
+def ordNode (S : Schema) : DNode → Bool
+  | .term .. => true
+  | .inner _ _ _ ks => pairwiseB (okPair S) ks && ordAll S ks
+def ordAll (S : Schema) : List DNode → Bool
+  | [] => true
+  | n :: ns => ordNode S n && ordAll S ns
+end
+
+mutual
+/-- default flags consistent downwards -/
+def flagsOk : DNode → Bool
+  | .term .. => true
+  | .inner _ f _ ks => (!f.dflt || ks.all (·.flags.dflt)) && flagsOkL ks
+def flagsOkL : List DNode → Bool
+  | [] => true
+  | n :: ns => flagsOk n && flagsOkL ns
+end
+
+mutual
+/-- no instance of a key-less list / state leaf-list anywhere -/
+def noDupInst (S : Schema) : DNode → Bool
+  | .term s _ _ _ => !S.isDupInst s
+  | .inner s _ _ ks => !S.isDupInst s && noDupInstL S ks
+def noDupInstL (S : Schema) : List DNode → Bool
+  | [] => true
+  | n :: ns => noDupInst S n && noDupInstL S ns
 end
 
 def wfSibs (S : Schema) (parent : Option Nat) (l : List DNode) : Bool :=
-  pairwiseB (okPair S) l && wfAll S parent l && l.all (fun c => !S.isKey c.sid)
+  shapeAll S parent l && l.all (fun c => !S.isKey c.sid) && pairwiseB (okPair S) l && ordAll S l && flagsOkL l
 
 def wfForest (S : Schema) (f : List DNode) : Bool := wfSibs S none f
 
